@@ -225,6 +225,12 @@ def pair3(prefix, k, tag="t0", scale=1):
     return [_produce("pair3", "%s|%s" % (prefix, k)), tag, scale]
 
 
+@m.memento_function(version="b4")
+def pairk(prefix, k, **opts):
+    """Like pair, with free-form settings (batch elements may pass any)."""
+    return [_produce("pairk", "%s|%s" % (prefix, k)), sorted(opts.items())]
+
+
 # ---- nested calls for concurrency scenarios (C09) (outer is defined below nest) -------------------------------------------
 @m.memento_function(version="n1")
 def nest(case_id):
